@@ -128,6 +128,17 @@ def rule_handout(ctx):
         ctx.ob(R, fc, fc.node, ok_active, f"a True path does not require an active assignment: {p.conds}", text="true-needs-active")
         ctx.ob(R, fc, fc.node, ok_paused, f"a True path does not require the partition not to be paused: {p.conds}", text="true-needs-unpaused")
         ctx.ob(R, fc, fc.node, ok_pos, f"a True path does not require position == next_fetch_offset: {p.conds}", text="true-needs-position")
+    # a result that refuses to hand out must also give up its buffer: has_more() then turns False, the entry is removed from the fetcher's
+    # table and the partition is fetched again; a refused-but-kept buffer blocks the partition for ever (nothing wakes the waiter)
+    se2 = SymEval(interest=lambda c: c in ("<return>", "<store>"))
+    for p in se2.run_function(fc.node, {"self": Unk("self"), fc.params()[1]: Unk("tp")}):
+        rets = [e for e in p.events if e.callee == "<return>"]
+        if not rets or not (isinstance(rets[-1].args[0], Const) and rets[-1].args[0].v is False):
+            continue
+        dropped = any(e.callee == "<store>" and isinstance(e.args[0], Const) and e.args[0].v == "self._partition_records"
+                      and isinstance(e.args[1], Const) and e.args[1].v is None for e in p.events)
+        ctx.ob(R, fc, fc.node, dropped, f"check_assignment refuses to hand out on the path {p.conds} but keeps the buffer: the fetcher never re-fetches the partition "
+                                        "and a consumer blocked in getone() is never woken (delivery stops short of the end of the log)", text="refusal-drops-buffer")
     cc = ctx.cfg(fc)
     # position compared is that of this result's partition
     ds = local_defs(cc, "tp_state")
@@ -182,6 +193,59 @@ def rule_handout(ctx):
     rets = [r for r in cg.nodes if r.kind == "return" and isinstance(r.ast.value, ast.Name)]
     apps = [n for n in cg.calls(attr="append")]
     ctx.ob(R, fg, fg.node, len(rets) == 1 and len(apps) == 1 and dotted(apps[0].ast.func.value) == rets[0].ast.value.id, "getall does not return exactly the records it took", text="getall-returns-taken")
+
+
+def rule_exhausted_removed(ctx):
+    R = "handout"
+    FE = "aiokafka.consumer.fetcher.Fetcher"
+    for m, take in (("next_record", "getone"), ("fetched_records", "getall")):
+        fi = ctx.fn(f"{FE}.{m}")
+        c = ctx.cfg(fi)
+        takes = [n for n in c.calls(attr=take)]
+        ctx.anchor(len(takes) == 1, f"{take}() call in {m}")
+        dels = [n for n in c.nodes if n.kind in ("stmt", "del", "store") and isinstance(n.stmt, ast.Delete) and "self._records[" in unparse(n.stmt)]
+        ctx.anchor(len(dels) >= 1, f"del self._records[tp] in {m}")
+        # from the take, a path back to the loop head / to the waiter that neither returns the records nor deletes the entry may only
+        # be taken when the result still has more to give (has_more() true)
+        region = c.reachable([takes[0]], exc=False)
+        d_after = [d for d in dels if d in region]
+        waits = [n for n in c.nodes if n.kind == "await" and n not in (takes[0],) and n in region and ctx.suspends(fi, n)]
+        hm = [t for t in region if t.kind == "test" and "has_more()" in unparse(t.ast)]
+        keep_edges = set()
+        for t in hm:
+            for mm, l in t.succ:
+                # the arm on which has_more() is true (a back edge to the loop head carries the label `back`)
+                if l not in ("F", "exc"):
+                    keep_edges.add((t, mm))
+        ok = bool(d_after)
+        if ok and m == "next_record":
+            from ..rulekit import none_tests
+            msg = takes[0].stmt.targets[0].id if isinstance(takes[0].stmt, ast.Assign) and isinstance(takes[0].stmt.targets[0], ast.Name) else None
+            nt = none_tests(c, msg) if msg else []
+            ok = len(nt) == 1
+            if ok:
+                t0, l_none, _l = nt[0]
+                start = [mm for mm, l in t0.succ if l == l_none]
+                # walk the `nothing returned` arm without crossing a delete; only has_more()-true edges may lead on
+                seen, work, bad = set(), list(start), None
+                while work:
+                    n = work.pop()
+                    if n in seen or n in d_after:
+                        continue
+                    seen.add(n)
+                    if n.kind in ("loop", "fornext", "await") or n is c.exit:
+                        bad = n
+                        break
+                    for mm, l in n.succ:
+                        if l == "exc" or (n, mm) in keep_edges:
+                            continue
+                        work.append(mm)
+                ok = bad is None
+        ctx.ob(R, fi, takes[0], ok, f"{m}: a result that yielded nothing is not removed from the fetcher's table (del self._records[tp]) before the loop goes on: "
+                                    "the partition is never fetched again", text=f"{m}:exhausted-removed")
+        nts = [n for n in c.calls(attr="_notify") if n in region]
+        ctx.ob(R, fi, takes[0], bool(nts) and all(any(c.path_exists(d, n, exc=False) for n in nts) for d in d_after),
+               f"{m}: removing an exhausted result does not wake the fetch routine", text=f"{m}:exhausted-notifies")
 
 
 def rule_api_handout(ctx):
@@ -503,6 +567,7 @@ def run(ctx):
     rule_accept(ctx)
     rule_handout(ctx)
     rule_api_handout(ctx)
+    rule_exhausted_removed(ctx)
     rule_position_writers(ctx)
     rule_unpack(ctx)
     rule_seek_drop(ctx)
